@@ -322,5 +322,5 @@ def c09_7(ctx: Ctx) -> RuleResult:
     r.instances = [i for i in r.instances if "mask field" in i.construct or "masked scatter" in i.construct]
     for i in r.instances:
         i.rule = "C09.7"
-    r.rule, r.title, r.floor = "C09.7", "samplers write samples only at the mask handed to them (zeros elsewhere), the mask kept as given", 2
+    r.rule, r.title, r.floor = "C09.7", "samplers write samples only at the mask handed to them (zeros elsewhere), the mask kept as given", 1
     return r
